@@ -279,3 +279,43 @@ func refEscNoNul(b []byte) []byte {
 	}
 	return out
 }
+
+// H_C14_argCount: a jet.Func that declares its argument count through
+// Arguments.RequireNumOfArguments(min, max) (symbolic small bounds, -1 = unbounded) called
+// with 0..3 arguments in plain, piped and slot form: an error exactly when the count
+// (piped value included) is outside [min, max].
+//
+//gosym:reach ok,rejected
+func H_C14_argCount() {
+	min := ndChoice("min", 4) - 1
+	max := ndChoice("max", 5) - 1
+	calls := []struct {
+		src string
+		n   int
+	}{
+		{`{{ f() }}`, 0}, {`{{ f(1) }}`, 1}, {`{{ f(1, 2) }}`, 2}, {`{{ f: 1, 2, 3 }}`, 3},
+		{`{{ 1 | f }}`, 1}, {`{{ 1 | f: 2 }}`, 2}, {`{{ 1 | f(_) }}`, 1}, {`{{ 1 | f(2, _) }}`, 2}, {`{{ 1 | f(2, _, 3) }}`, 3},
+	}
+	c := ndChoice("call", len(calls))
+	set := hxSet(nil, "/m.jet", calls[c].src)
+	vars := make(VarMap)
+	vars.SetFunc("f", func(a Arguments) reflect.Value {
+		a.RequireNumOfArguments("f", min, max)
+		return reflect.ValueOf("ok")
+	})
+	_, err := hxExec(set, "/m.jet", vars, nil)
+	n := calls[c].n
+	bad := (min >= 0 && n < min) || (max >= 0 && n > max)
+	if bad {
+		vfReach("rejected")
+		vfAssert(err != nil, "a wrong argument count is an error")
+	} else {
+		vfReach("ok")
+		vfAssert(err == nil, "an argument count within the declared range is accepted")
+	}
+}
+
+// H_C14_writerLast: a SafeWriter stage may only come last (shares the harness of C01).
+//
+//gosym:reach rejected
+func H_C14_writerLast() { H_C01_writerNotLast() }
